@@ -17,7 +17,7 @@ import (
 func init() {
 	vfRegister(&vfProp{
 		id:       "C12",
-		classes:  []string{"hist-os", "hist-rs", "hist-peer", "race", "race", "afterclose", "hist-inmem"},
+		classes:  []string{"hist-os", "hist-rs", "hist-peer", "race", "race", "afterclose", "hist-inmem", "race1"},
 		gen:      c12Gen,
 		exec:     c12Exec,
 		maxSteps: 200000,
@@ -50,27 +50,50 @@ func c12Gen(class string, seed uint64, tier string) *vfScenario {
 	sc.Cfg["ssites"] = int64(1 + rng.IntN(3))
 	sc.Cfg["csites"] = 1 | 2 | 4
 	switch class {
-	case "race":
+	case "race", "race1":
 		sc.Cfg["csites"] = 1 | 2 | 4 | 32
 		sc.Cfg["fsyncext"] = 1
+		raceOp := c12RaceOp
+		if class == "race1" {
+			// single-request calls only, so that callers can also be held between registering a request and writing it
+			// (site cc.send): the other place where a call that has let go of the File's lock too early is overtaken by Close
+			sc.Cfg["csites"] = 1 | 2 | 8 | 32
+			raceOp = func(rng *rand.Rand, t, P, size int) vfOp {
+				for {
+					op := c12RaceOp(rng, t, P, size)
+					switch op.K {
+					case "read", "writeto":
+						continue
+					case "readat", "writeat":
+						if op.N > P {
+							op.N = 1 + rng.IntN(P)
+						}
+						if op.K == "readat" && int(op.Off)+op.N > size {
+							continue // (a read that runs into the end of the file needs a second request)
+						}
+					}
+					return op
+				}
+			}
+		}
 		ntasks := 1 + rng.IntN(4)
 		for t := 0; t < ntasks; t++ {
 			n := 1 + rng.IntN(4)
 			for i := 0; i < n; i++ {
-				sc.Ops = append(sc.Ops, c12RaceOp(rng, t, P, int(sc.Cfg["size0"])))
+				sc.Ops = append(sc.Ops, raceOp(rng, t, P, int(sc.Cfg["size0"])))
 			}
 		}
 		// the closer is its own task; sometimes it closes twice, sometimes it does something first
 		ct := ntasks
 		if rng.IntN(3) == 0 {
-			sc.Ops = append(sc.Ops, c12RaceOp(rng, ct, P, int(sc.Cfg["size0"])))
+			sc.Ops = append(sc.Ops, raceOp(rng, ct, P, int(sc.Cfg["size0"])))
 		}
 		sc.Ops = append(sc.Ops, vfOp{K: "close", T: ct})
 		if rng.IntN(2) == 0 {
 			sc.Ops = append(sc.Ops, vfOp{K: "close", T: ct})
 		}
 		if rng.IntN(2) == 0 {
-			sc.Ops = append(sc.Ops, c12RaceOp(rng, ct, P, int(sc.Cfg["size0"])))
+			sc.Ops = append(sc.Ops, raceOp(rng, ct, P, int(sc.Cfg["size0"])))
 		}
 		if rng.IntN(3) == 0 {
 			// somebody else closes too: exactly one of the Close calls wins, whichever way they interleave
@@ -175,7 +198,7 @@ func c12RaceOp(rng *rand.Rand, t, P, size int) vfOp {
 
 func c12Exec(r *vfRun) {
 	switch r.sc.Class {
-	case "race":
+	case "race", "race1":
 		c12Race(r)
 	default:
 		c12History(r)
